@@ -51,4 +51,26 @@ PROPS = {
         "assumptions": ["gorgonia's elementwise kernels are modelled by the scalar functions of Model/Scalar.v; integer division by zero is outside the property and not generated"],
         "explain": {"C03_ops": "Eval vm_compute in (spec the_case, model optable13 the_case, known_class the_case)."},
     },
+    "C12": {
+        "check_modules": ["theories/Check/CheckC12.v"],
+        "theorem": "C12_*",
+        "trusted_base": COMMON_TB,
+        "assumptions": ["bytes.Reader.Read and binary.LittleEndian are modelled by read_loop/le; tensor.New is modelled as returning the given backing with the given shape"],
+        "explain": {"C12_decode": "Eval vm_compute in (spec the_case, model the_case, known_class the_case).",
+                    "C12_load": "Eval vm_compute in (spec the_case, model the_case, known_class the_case)."},
+    },
+    "C01": {
+        "check_modules": ["theories/Check/CheckC01.v"],
+        "theorem": "C01_*",
+        "trusted_base": COMMON_TB,
+        "assumptions": ["operators are abstract in the theorems (any operator semantics); the real registry is exercised by the real-operator stream"],
+        "explain": {"C01_symbolic": "Eval vm_compute in (run (sc_graph the_case) (sc_feed the_case), spec_outputs (sc_graph the_case) (sc_feed the_case), kind the_case)."},
+    },
+    "C13": {
+        "check_modules": ["theories/Check/CheckC13.v"],
+        "theorem": "C13_*",
+        "trusted_base": COMMON_TB,
+        "assumptions": ["declared inputs carry a tensor type with a shape of rank >= 1 (the property's quantifier); Go iterates the shape map in random order, only accept/reject is compared"],
+        "explain": {"C13_signatures": "Eval vm_compute in (accepts (sc_graph the_case) (sc_feed the_case), run (sc_graph the_case) (sc_feed the_case), in_domain the_case)."},
+    },
 }
